@@ -294,6 +294,100 @@ def ends_path(st):
 
 
 # ----------------------------------------------------------------------------------------------------------------
+# statement-level inlining of same-TU helpers ("extract helper" refactors must not change what a rule sees)
+
+
+def _inlinable_helper(h):
+    if h is None or h.get("storageClass") != "static" or not (h.get("t") or "").startswith("void ("):
+        return False
+    pids = {p.get("id") for p in cir.params(h)}
+    for x in cir.walk(h):
+        k = x.get("k")
+        if k in ("ReturnStmt", "GotoStmt", "LabelStmt"):
+            return False
+        if k == "VarDecl" and x.get("storageClass") == "static":
+            return False
+        if is_assign(x):
+            t = cir.strip(cir.kids(x)[0])
+            if t is not None and t.get("k") == "DeclRefExpr" and (t.get("ref") or {}).get("id") in pids:
+                return False
+        if k == "UnaryOperator" and x.get("op") == "&":
+            t = cir.strip(cir.kids(x)[0])
+            if t is not None and t.get("k") == "DeclRefExpr" and (t.get("ref") or {}).get("id") in pids:
+                return False
+    return True
+
+
+def _subst(node, binding):
+    """replace DeclRefExprs to parameters (by decl id) with copies of the bound argument expressions"""
+    import copy
+    kids = node.get("i")
+    if not kids:
+        return
+    for idx, c in enumerate(kids):
+        if not c:
+            continue
+        if c.get("k") == "DeclRefExpr" and (c.get("ref") or {}).get("id") in binding:
+            arg = copy.deepcopy(binding[c["ref"]["id"]])
+            kids[idx] = {"k": "ParenExpr", "t": arg.get("t"), "line": c.get("line"), "i": [arg]}
+        else:
+            _subst(c, binding)
+
+
+def inline_helpers(unit, fn, skip=lambda name, h: False, depth=3):
+    """A deep copy of `fn` in which statement-level calls `h(args);` of static void helpers of the same TU (no return
+    statements, parameters never reassigned or address-taken, pure arguments) are replaced by the helper's body with
+    the parameters substituted.  `skip(name, helper)` keeps a helper opaque (the primitives a rule recognises by
+    shape).  Returns (copy, [names of inlined helpers])."""
+    import copy
+    out = copy.deepcopy(fn)
+    done = []
+
+    def expand(call, level):
+        name = cir.callee(call)
+        h = unit.funcs.get(name) if name else None
+        if h is None or h is fn or level >= depth or (h.get("file") or unit.tu) != (fn.get("file") or unit.tu):
+            return None
+        if skip(name, h) or not _inlinable_helper(h):
+            return None
+        ps = cir.params(h)
+        a = cir.args(call)
+        if len(a) != len(ps) or not all(cir.is_pure(x) for x in a if x is not None):
+            return None
+        body = copy.deepcopy(cir.body(h))
+        _subst(body, {p.get("id"): x for p, x in zip(ps, a)})
+        body["inlined"] = name
+        body["line"] = call.get("line")
+        done.append(name)
+        process(body, level + 1)
+        return body
+
+    def process(node, level):
+        kids = node.get("i")
+        if not kids:
+            return
+        stmt_parent = node.get("k") in ("CompoundStmt", "IfStmt", "ForStmt", "WhileStmt", "DoStmt", "CaseStmt",
+                                        "DefaultStmt", "LabelStmt", "SwitchStmt")
+        for idx, c in enumerate(kids):
+            if not c:
+                continue
+            if stmt_parent and cir.is_call(c):
+                # a call in statement position (not the condition / increment of a loop or if)
+                is_stmt = node.get("k") == "CompoundStmt" or \
+                    (node.get("k") == "IfStmt" and c is not if_parts(node)[0]) or \
+                    (node.get("k") == "ForStmt" and idx == 4) or (node.get("k") == "WhileStmt" and idx == len(kids) - 1) or \
+                    (node.get("k") == "DoStmt" and idx == 0) or (node.get("k") in ("CaseStmt", "DefaultStmt") and idx == len(kids) - 1)
+                if is_stmt:
+                    rep = expand(c, level)
+                    if rep is not None:
+                        kids[idx] = rep
+                        continue
+            process(c, level)
+    process(cir.body(out), 0)
+    return out, done
+
+
+# ----------------------------------------------------------------------------------------------------------------
 # MJMODEL_REFERENCES
 
 
